@@ -10,6 +10,21 @@ type regression struct {
 	Src string
 }
 
+// host regressions: programs that end with an unrecovered panic; besides the output, the dynamic type of
+// interp.Panic.Value seen by the embedder must be the one given here (F06-3: it was reflect.Value).
+type hostRegression struct {
+	ID       string
+	Src      string
+	HostType string // fmt.Sprintf("%T", err.(interp.Panic).Value)
+}
+
+var hostRegressions = []hostRegression{
+	{"F06-3/host-string", "package main\n\nimport \"fmt\"\n\nvar _ = fmt.Sprint\n\nfunc main() {\n\tpanic(\"p1\")\n}\n", "string"},
+	{"F06-3/host-int", "package main\n\nimport \"fmt\"\n\nvar _ = fmt.Sprint\n\nfunc main() {\n\tdefer func() {\n\t\tif x := recover(); x != nil {\n\t\t\tpanic(x)\n\t\t}\n\t}()\n\tpanic(143)\n}\n", "int"},
+	{"F06-3/host-error", "package main\n\nimport (\n\t\"errors\"\n\t\"fmt\"\n)\n\nvar _ = fmt.Sprint\n\nfunc main() {\n\tdefer panic(errors.New(\"e1\"))\n}\n", "*errors.errorString"},
+	{"F06-3/host-wrapped", "package main\n\nimport (\n\t\"errors\"\n\t\"fmt\"\n)\n\nvar base = errors.New(\"e1\")\n\nfunc main() {\n\tdefer func() { panic(fmt.Errorf(\"e2: %w\", base)) }()\n\tpanic(\"p1\")\n}\n", "*fmt.wrapError"},
+}
+
 // F06-1 (fixed): the arguments of a deferred call are those of the defer statement, at each of the three
 // registration sites (call: interpreted callee; callBin: native callee; genBuiltinDeferWrapper: builtin)
 // and for every kind of value — the variable is assigned again before the function returns.
@@ -158,6 +173,352 @@ func main() {
 	k = 2
 	ch = c2
 	src = []int{4}
+}
+`},
+	// F07 (fixed): a panic raised by a deferred call does not skip the deferred calls still pending in the frame;
+	// it replaces the current panic — one, several, nested, in loops, in methods, a run-time fault.
+	{"F07/deferred-panics", `package main
+
+import (
+	"errors"
+	"fmt"
+)
+
+type T struct{ n int }
+
+func (t T) Boom(tag string)  { fmt.Println("method", tag, t.n); panic("p" + fmt.Sprint(t.n)) }
+func (t *T) Quiet(tag string) { fmt.Println("pmethod", tag, t.n) }
+
+func show(tag string) { fmt.Println("show", tag) }
+
+// one deferred call panics, others pending before and after it
+func one() {
+	defer show("one-first")
+	defer func() { panic("p1") }()
+	defer show("one-last")
+	fmt.Println("one-body")
+}
+
+// several deferred calls panic: the last one raised wins, a recover registered first sees it
+func several() (r int) {
+	defer func() { fmt.Println("several-rec", recover()); r = 7 }()
+	defer func() { panic("p2") }()
+	defer show("several-mid")
+	defer func() { panic(errors.New("e3")) }()
+	panic("p4")
+}
+
+// nested: the deferred call's own deferred calls panic and recover
+func nested() {
+	defer show("nested-outer-pending")
+	defer func() {
+		defer show("nested-inner-pending")
+		defer func() {
+			fmt.Println("nested-inner-rec", recover())
+			panic("p5")
+		}()
+		panic("p6")
+	}()
+	fmt.Println("nested-body")
+}
+
+// in a loop: every second deferred call panics
+func loop() {
+	defer func() { fmt.Println("loop-rec", recover()) }()
+	for i := 0; i < 5; i++ {
+		defer func(k int) {
+			fmt.Println("loop", k)
+			if k%2 == 1 {
+				panic(100 + k)
+			}
+		}(i)
+	}
+}
+
+// methods and a run-time fault in a deferred call
+func methods() {
+	t := T{3}
+	defer (&t).Quiet("after")
+	defer t.Boom("boom")
+	defer func() {
+		var m map[string]int
+		m["k"] = 1
+	}()
+	defer show("methods-first-run")
+}
+
+// recovered in the middle: the calls after the recovering one run without a panic in flight
+func middle() (r int) {
+	defer func() { fmt.Println("middle-last", recover()); r++ }()
+	defer func() { fmt.Println("middle-rec", recover()); r = 10 }()
+	defer func() { panic("p7") }()
+	return 1
+}
+
+func guard(name string, f func()) {
+	defer func() { fmt.Println(name, "ended with", recover()) }()
+	f()
+}
+
+func main() {
+	guard("one", one)
+	fmt.Println("several", several())
+	guard("nested", nested)
+	loop()
+	guard("methods", methods)
+	fmt.Println("middle", middle())
+}
+`},
+	// F06-3 (fixed): recover() returns the value the panic was raised with: type assertions, type switches,
+	// comparisons, errors.Is, re-panic chains.
+	{"F06-3/recovered-value", `package main
+
+import (
+	"errors"
+	"fmt"
+)
+
+type Pt struct{ x, y int }
+
+var sentinel = errors.New("e1")
+
+func inspect(tag string, r interface{}) {
+	s, isS := r.(string)
+	e, isE := r.(error)
+	n, isN := r.(int)
+	p, isP := r.(Pt)
+	fmt.Printf("%s string=%v/%q error=%v int=%v/%d pt=%v/%v\n", tag, isS, s, isE, isN, n, isP, p)
+	if isE {
+		fmt.Println(tag, "Error()", e.Error(), "is-sentinel", errors.Is(e, sentinel), "unwrap", errors.Unwrap(e) == sentinel)
+	}
+	switch v := r.(type) {
+	case string:
+		fmt.Println(tag, "switch string", v, v == "p1")
+	case int:
+		fmt.Println(tag, "switch int", v+1)
+	case Pt:
+		fmt.Println(tag, "switch Pt", v.x+v.y)
+	default:
+		fmt.Println(tag, "switch other")
+	}
+	fmt.Println(tag, "==", r == "p1", r == 143, r == sentinel, r == Pt{1, 2}, r != nil)
+}
+
+func try(tag string, f func()) {
+	defer func() { inspect(tag, recover()) }()
+	f()
+}
+
+// re-panic chains: the value that arrives is the one first raised
+func chain(depth int, v interface{}) {
+	defer func() {
+		if x := recover(); x != nil {
+			panic(x)
+		}
+	}()
+	if depth == 0 {
+		panic(v)
+	}
+	chain(depth-1, v)
+}
+
+func main() {
+	try("string", func() { panic("p1") })
+	try("int", func() { panic(143) })
+	try("sentinel", func() { panic(sentinel) })
+	try("wrapped", func() { panic(fmt.Errorf("ctx: %w", sentinel)) })
+	try("struct", func() { panic(Pt{1, 2}) })
+	try("chain-string", func() { chain(3, "p1") })
+	try("chain-int", func() { chain(2, 143) })
+	try("chain-err", func() { chain(1, sentinel) })
+	var iface interface{} = "p1"
+	try("iface-var", func() { panic(iface) })
+	x := 143
+	try("int-var", func() { panic(x) })
+	try("float", func() { panic(1.5) })
+	try("expr", func() { panic("p" + fmt.Sprint(1)) })
+	func() {
+		defer func() {
+			r := recover()
+			fmt.Println("nothing", r == nil, r)
+		}()
+	}()
+}
+`},
+	// F06-4 (fixed): defer panic(v) is deferred, its argument fixed at the defer statement.
+	{"F06-4/defer-panic", `package main
+
+import (
+	"errors"
+	"fmt"
+)
+
+// the argument of defer panic(v) is fixed at the defer statement; the rest of the body runs
+func fixed() {
+	defer func() { fmt.Println("fixed-rec", recover()) }()
+	v := "p1"
+	defer panic(v)
+	v = "p2"
+	fmt.Println("fixed-body", v)
+}
+
+// the deferred panic replaces the panic of the body; deferred calls registered before it still run
+func replaces() {
+	defer func() { fmt.Println("replaces-rec", recover()) }()
+	defer fmt.Println("replaces-pending")
+	defer panic(143)
+	panic("p3")
+}
+
+// several, in a loop: the last one run (first registered) wins
+func loop() {
+	defer func() {
+		r := recover()
+		n, ok := r.(int)
+		fmt.Println("loop-rec", r, n, ok)
+	}()
+	for i := 0; i < 3; i++ {
+		defer panic(200 + i)
+	}
+	fmt.Println("loop-body")
+}
+
+// an error value, recovered as an error
+func errval() {
+	err := errors.New("e4")
+	defer func() {
+		e, ok := recover().(error)
+		fmt.Println("errval-rec", ok, e == err)
+	}()
+	defer panic(err)
+	err = errors.New("e5")
+}
+
+// not recovered: it reaches the caller
+func escapes() {
+	defer fmt.Println("escapes-pending")
+	defer panic("p6")
+	fmt.Println("escapes-body")
+}
+
+func main() {
+	fixed()
+	replaces()
+	loop()
+	errval()
+	func() {
+		defer func() { fmt.Println("main-rec", recover()) }()
+		escapes()
+	}()
+}
+`},
+	// F06-2 (fixed): function literals held in variables, fields, slices, maps, deferred or called from deferred
+	// closures, with and without a panic in flight: Eval returns (no dead-lock on the frame lock).
+	{"F06-2/held-literals", `package main
+
+import "fmt"
+
+type S struct {
+	f func(int)
+	g func() int
+}
+
+// deferred from a variable, a field, a slice element, a map element; no panic
+func plain() (r int) {
+	h := func(a int) { fmt.Println("var", a); r += a }
+	defer h(1)
+	s := S{f: func(a int) { fmt.Println("field", a); r += a }}
+	defer s.f(2)
+	fs := []func(int){func(a int) { fmt.Println("slice", a); r += a }}
+	defer fs[0](3)
+	m := map[string]func(int){"k": func(a int) { fmt.Println("map", a); r += a }}
+	defer m["k"](4)
+	fmt.Println("plain-body")
+	return 100
+}
+
+// the same with a panic in flight, recovered by a literal written at an earlier defer statement
+func panicking() (r int) {
+	defer func() { fmt.Println("panicking-rec", recover()); r += 1000 }()
+	h := func(a int) { fmt.Println("var", a); r += a }
+	defer h(1)
+	s := S{f: func(a int) { fmt.Println("field", a); r += a }}
+	defer s.f(2)
+	fs := []func(int){func(a int) { fmt.Println("slice", a); r += a }}
+	defer fs[0](3)
+	panic("p1")
+}
+
+// called from a deferred closure (and from a closure called by it)
+func fromClosure() {
+	h := func(tag string) { fmt.Println("h", tag) }
+	k := func(tag string) { h(tag + "-k") }
+	defer func() {
+		h("closure")
+		k("closure")
+		fmt.Println("fromClosure-rec", recover())
+	}()
+	panic("p2")
+}
+
+// a held literal that panics itself, others pending
+func heldPanics() {
+	defer func() { fmt.Println("heldPanics-rec", recover()) }()
+	h := func() { fmt.Println("boom"); panic("p3") }
+	q := func() { fmt.Println("quiet") }
+	defer q()
+	defer h()
+	defer q()
+}
+
+// in a loop, one variable reassigned; deferred in a nested function; returned closure
+func loops() {
+	var h func(int)
+	for i := 0; i < 3; i++ {
+		h = func(a int) { fmt.Println("loop", a) }
+		defer h(i * 10)
+	}
+	mk := func(tag string) func() { return func() { fmt.Println("made", tag) } }
+	g := mk("g")
+	defer g()
+	defer mk("inline")()
+	func() {
+		inner := func() { fmt.Println("inner") }
+		defer inner()
+	}()
+}
+
+// a held literal that defers and recovers on its own (its own frame: works like any function)
+func ownDefers() {
+	h := func() {
+		defer func() { fmt.Println("own-rec", recover()) }()
+		panic("p4")
+	}
+	defer h()
+	defer fmt.Println("ownDefers-pending")
+}
+
+// method value held in a variable
+type T struct{ n int }
+
+func (t T) M(a int) { fmt.Println("method-value", t.n, a) }
+
+func methodValue() {
+	t := T{5}
+	m := t.M
+	defer m(6)
+	fmt.Println("methodValue-body")
+}
+
+func main() {
+	fmt.Println(plain())
+	fmt.Println(panicking())
+	fromClosure()
+	heldPanics()
+	loops()
+	ownDefers()
+	methodValue()
+	fmt.Println("done")
 }
 `},
 }
